@@ -11,7 +11,7 @@ import (
 )
 
 const (
-	cellTol     = 2e-6 // absolute quadrature tolerance per top-level cell (cells carry about 1/128 of the mass)
+	cellTol     = 1e-5 // absolute quadrature tolerance per top-level cell (cells carry about 1/128 of the mass); the error estimates actually incurred are accumulated and enter every decision
 	gridKV      = 16
 	gridNPhi    = 8
 	integralTol = 1e-3 // clause (a): stated tolerance of the design
